@@ -346,9 +346,9 @@ class Check(PropertyCheck):
             "proto x flow/ignore x server pre-connected; exhaustive short schedules first, then random ones of length <= 16 "
             "(about 10% contain events server.py cannot produce: second close, data after close). distinct = distinct "
             "(config, effective input sequence); non-trivial = at least one SendData or close command was produced.")
-    budget = {"quick": 20000, "thorough": 600000}
-    time_budget = {"quick": 20, "thorough": 540}
-    fingerprints = ["mitmproxy.proxy.tunnel:TunnelLayer", "mitmproxy.proxy.layers.tcp:TCPLayer", "mitmproxy.proxy.layers.udp:UDPLayer",
+    budget = {"quick": 15000, "thorough": 600000}
+    time_budget = {"quick": 15, "thorough": 540}
+    fingerprints = ["mitmproxy.flow:Flow.kill", "mitmproxy.flow:Flow.killable", "mitmproxy.proxy.tunnel:TunnelLayer", "mitmproxy.proxy.layers.tcp:TCPLayer", "mitmproxy.proxy.layers.udp:UDPLayer",
                     "mitmproxy.proxy.layer:Layer.handle_event", "mitmproxy.proxy.layer:Layer._Layer__continue",
                     "mitmproxy.proxy.layer:Layer._Layer__process",
                     "mitmproxy.proxy.server:ConnectionHandler.close_connection"]
@@ -397,7 +397,7 @@ class Check(PropertyCheck):
     def generate(self, rng, tier):
         yield from self.enum_dead(3 if tier == "quick" else 5)
         yield from self.enum_tunnel(2)
-        yield from self.enum(3 if tier == "quick" else 4, self.ALPHA)
+        yield from self.enum(3, self.ALPHA[:10]) if tier == "quick" else self.enum(4, self.ALPHA)
         yield from self.enum_tunnel(3 if tier == "quick" else 5)
         if tier == "thorough":
             yield from self.enum(6, self.ALPHA[:7])
